@@ -137,7 +137,9 @@ def function_calls(info, tier="thorough"):
     sensitive = set((info or {}).get("sensitive", []))
     if not sensitive:          # translator failed: drive everything
         sensitive = {c["fn"] for c in calls}
-    calls += shaped_variants(calls, sensitive, tier)
+    known = {c for e, d in load_baseline().items() for c in d}
+    # (when the translator failed, `sensitive` is everything: keep only the variants the recorded baseline knows)
+    calls += [c for c in shaped_variants(calls, sensitive, tier) if info or not known or c["id"] in known]
     templated = {c["fn"] for c in calls}
     not_templated = {f: K.NOT_EXERCISED.get(f, "no typed template (private helper, environment-dependent or schema-typed input)")
                      for f in sorted(sensitive - templated)}
@@ -349,9 +351,17 @@ def run(ctx: core.Ctx):
         ctx.gen("C01Facts", text1, [f for f in facts1 if f["name"] in ("wrap_needed_df", "kind_of", "limit_merge")])
         c01_ok = True
     except Exception as ex:
-        ctx.broken("T1:c01_facts", f"{type(ex).__name__}: {ex}")
-        c01_ok = False
-        ctx.gen("C01Facts", open(core.VERIF + "/translate/c01_facts_pinned.v").read())
+        # C12 needs only the clause configuration and the decorator table of Gen.C01Facts: regenerate that part from c01_facts'
+        # own component translators; only if THAT fails is C12's tie broken (the rest of c01_facts is C01's to report)
+        try:
+            ctx.gen("C01Facts", c12_facts.c01_core_text(core.REPO),
+                    [{"name": "C01Facts (core part only)", "note": f"c01_facts.generate failed elsewhere: {type(ex).__name__}: {ex}"}])
+            ctx.log(f"note: translate/c01_facts.generate failed in a part C12 does not use ({ex}); clause configuration regenerated from its components")
+            c01_ok = True
+        except Exception as ex2:
+            ctx.broken("T1:c01_facts", f"{type(ex2).__name__}: {ex2}")
+            c01_ok = False
+            ctx.gen("C01Facts", open(core.VERIF + "/translate/c01_facts_pinned.v").read())
     # ---- proofs
     proved = False
     deps = ["Base/Val.v", "Base/Expr.v", "Base/Sort.v", "Sql/Block.v", "Sql/Norm.v", "Model/Chain.v", "Model/ChainProof.v",
@@ -683,6 +693,7 @@ UNDEC = "undecided(reader cannot judge; same in the recorded baseline)"
 def compare_functions(ctx, results, duck):
     baseline = load_baseline()
     text_base = load_baseline("text")
+    known_ids = {c for e2, d2 in baseline.items() for c in d2}
     dref = {f["id"]: f for f in duck["functions"]}
     out = {"text_shapes": {}, "calls": 0, "compared": 0, "agree": 0, "per_engine": {}, UNDEC: [], "not_in_baseline": [], "not_supported_on_duckdb": 0}
     for e, r in results.items():
@@ -694,6 +705,9 @@ def compare_functions(ctx, results, duck):
             shape, bad = text_shape(f)
             if shape:
                 rec = text_base.get(e, {}).get(f["id"])
+                if f["id"] not in known_ids:
+                    out["not_in_baseline"].append({"engine": e, "call": f["id"], "outcome": "text:" + shape})
+                    continue
                 kind = "does-not-parse" if shape.startswith("does-not-parse") else "not-a-fixed-point"
                 # known only as far as the recorded table says so: same engine, same call, same shape of difference
                 sig = f"C12/{e}/function-text:recorded-{kind}" if rec == shape else f"C12/{e}/function-text-regression:{f['fn']}:{shape}"
